@@ -16,7 +16,7 @@ import tempfile
 from . import pyenv, ncchcommon as nc, savecommon as sv
 from .builders import exefs as XB, romfs as RB, pack as P
 
-READERS = ['romfs', 'exefs', 'ncch', 'ncch_special', 'cia', 'cci', 'cdn', 'sdtitle', 'disa', 'diff']
+READERS = ['romfs', 'exefs', 'ncch', 'ncch_special', 'cia', 'cci', 'cdn', 'sdtitle', 'disa', 'diff', 'nand']
 WRAPPERS = ['w_ctr', 'w_twl', 'w_cbc', 'w_ctr_win', 'w_sub', 'w_merge', 'w_closewrap']
 SOURCES = ['obj', 'path', 'fs']
 CLOSEFD = [None, True, False]
@@ -210,6 +210,24 @@ def build(kind, source, closefd):
             # (partition.dpfs_lv3_file is the layer under the level-4 readers, not a sibling handle)
             sc.handles['lv4'] = IVFCLevel4Reader(r.partitions[0].ivfc_hash_tree)
             sc.handles['lv4_b'] = IVFCLevel4Reader(r.partitions[0].ivfc_hash_tree, verify=False)
+        elif kind == 'nand':
+            if source != 'obj':
+                sc.error = 'n/a'          # the image is a 0x3AF00000-byte sparse virtual file: only the file-object source kind
+                return sc
+            from . import nandcommon as NC
+            from pyctr.type.nand import NAND, NANDSection
+            case = NC.gen_case(random.Random(5), force=dict(layout='retail', cid_mode='given', otp_mode='dec', essential=True, bonus=False))
+            img, info, spec, nkw, truth = NC.materialise(case)
+            sc.base = img
+            r = sc.reader = NAND(img, **nkw, **kw)
+            sc.handles['sec_firm0'] = r.open_raw_section(NANDSection.FIRM0)
+            sc.handles['sec_firm1'] = r.open_raw_section(NANDSection.FIRM1)
+            sc.handles['sec_header'] = r.open_raw_section(NANDSection.Header)
+            sc.handles['part_ctr'] = r.open_ctr_partition(0)
+            sc.handles['part_twl'] = r.open_twl_partition(0)
+            if r.essential:
+                sc.nested['essential'] = r.essential
+                sc.handles['essential_hdr'] = r.essential.open('nand_hdr')
         elif kind in WRAPPERS:
             if source != 'obj':
                 sc.error = 'n/a'
